@@ -34,7 +34,9 @@ CONSTANTS MaxLen,     \* requests per sequence
           Defects,    \* subset of {"underscoreSig", "emptyName"}
           Emit
 
-Endpoints == {"mpcol", "mprow", "mpbatch", "lp", "lpv1", "lpv2", "lp2m"}
+\* lp2m: two measurements, the second carries the column under test; lpbadm: six valid measurements plus
+\* one whose NAME is invalid ("bad.name") and carries the column under test
+Endpoints == {"mpcol", "mprow", "mpbatch", "lp", "lpv1", "lpv2", "lp2m", "lpbadm"}
 CoreEps   == {"mpcol", "mprow", "lp"}
 Codecs    == {"none", "gzip", "zstd", "badgzip", "badzstd"}
 Names     == {"plain", "empty", "underscore", "time", "reserved"}
@@ -60,7 +62,7 @@ VARIABLES seq,       \* requests sent so far
 
 vars == <<seq, acc, buf, flushed, panicked>>
 
-LpEps == {"lp", "lpv1", "lpv2", "lp2m"}
+LpEps == {"lp", "lpv1", "lpv2", "lp2m", "lpbadm"}
 \* the line-protocol parser never produces a field with an empty key: the column does not exist
 HasCol(r)  == ~(r.ep \in LpEps /\ r.name = "empty")
 Skipped(n) == n \in {"empty", "underscore"}          \* names getColumnSignature ignores
